@@ -53,6 +53,10 @@ type Send struct {
 	// Sels: when present the request selects the field several times (aliases s0, s1, ...), each selection with its
 	// own arguments and place; Args/Place above are then unused.
 	Sels []Sel `json:"sels,omitempty"`
+	// Paginated: the request goes to the paginated field p (same argument struct, registered with
+	// schemabuilder.Paginated) with the connection arguments Conn next to the field's own arguments.
+	Paginated bool     `json:"paginated,omitempty"`
+	Conn      []LField `json:"conn,omitempty"`
 }
 
 type Sel struct {
@@ -318,6 +322,9 @@ func (s *Send) document(op, root string) string {
 		return b.String()
 	}
 	field := fieldText("", s.Args)
+	if s.Paginated {
+		field = "p" + strings.TrimPrefix(fieldText("", append(append([]LField{}, s.Conn...), s.Args...)), "f") + " { totalCount }"
+	}
 	switch s.Place {
 	case "fragment":
 		b.WriteString(" { g(x: 1) ...Fr }\nfragment Fr on " + root + " { " + field + " }")
@@ -365,7 +372,7 @@ func collect(w *Lit, m *MTy, get func() *Lit, set func(*Lit), inList bool, out *
 
 var mutationClasses = []string{"wrong-kind", "wrong-kind", "wrong-kind", "null-for-required", "null-for-required", "unknown-enum",
 	"bad-base64", "bad-time", "bad-text", "int-out-of-range", "int-out-of-range", "int-fractional", "f32-unrepresentable",
-	"unknown-field", "duplicate-field", "default-on-required", "noncanonical-base64", "look-alike"}
+	"unknown-field", "duplicate-field", "default-on-required", "noncanonical-base64", "look-alike", "all-omitted", "all-omitted", "bad-connection-arg"}
 
 var badTimes = []string{"", "garbage", "2020-01-02", "2020-01-02T03:04:05", "2020-01-02 03:04:05Z", "2020-01-02t03:04:05Z",
 	"2020-01-02T03:04:05z", "2020-13-02T03:04:05Z", "2020-00-02T03:04:05Z", "2020-01-00T03:04:05Z", "2020-01-32T03:04:05Z",
@@ -596,13 +603,21 @@ func build(td *TyDesc) (b *built, err error) {
 		*b.got = in[0]
 		return []reflect.Value{reflect.ValueOf(dumpText(in[0], b.mty))}
 	})
+	sb.Object("Item", Item{}).Key("id")
+	pfn := reflect.MakeFunc(reflect.FuncOf([]reflect.Type{rt}, []reflect.Type{reflect.TypeOf([]Item{})}, false), func(in []reflect.Value) []reflect.Value {
+		atomic.AddInt32(b.callsF, 1)
+		*b.got = in[0]
+		return []reflect.Value{reflect.ValueOf([]Item{{Id: 1}, {Id: 2}, {Id: 3}})}
+	})
 	q.FieldFunc("f", fn.Interface())
+	q.FieldFunc("p", pfn.Interface(), schemabuilder.Paginated)
 	q.FieldFunc("g", func(args struct{ X int32 }) int32 {
 		atomic.AddInt32(b.callsG, 1)
 		return args.X
 	})
 	mu := sb.Mutation()
 	mu.FieldFunc("f", fn.Interface())
+	mu.FieldFunc("p", pfn.Interface(), schemabuilder.Paginated)
 	mu.FieldFunc("g", func(args struct{ X int32 }) int32 {
 		atomic.AddInt32(b.callsG, 1)
 		return args.X
@@ -855,6 +870,38 @@ func pickTop(r *vh.Rng) *TyDesc {
 		return fixedTy
 	}
 	return genTop(r)
+}
+
+var badConn = [][]LField{
+	{{"first", &Lit{K: "str", S: "2"}}}, {{"last", &Lit{K: "float", F: 1.5}}, {"first", &Lit{K: "bool", B: true}}},
+	{{"sortOrder", &Lit{K: "enum", S: "sideways"}}}, {{"filterTextFields", &Lit{K: "str", S: "name"}}}, {{"after", &Lit{K: "int", I: "3"}}},
+}
+
+// randomPaginated sends some requests to the paginated field p, with or without connection arguments.
+func randomPaginated(r *vh.Rng, c *Case, pct int) {
+	if c.Class == "look-alike" {
+		return
+	}
+	for k := range c.Sends {
+		s := &c.Sends[k]
+		if c.Class == "bad-connection-arg" {
+			s.Paginated, s.Conn = true, badConn[r.Intn(len(badConn))]
+			continue
+		}
+		if !r.Chance(pct) {
+			continue
+		}
+		s.Paginated = true
+		switch r.Intn(5) {
+		case 0, 1:
+		case 2:
+			s.Conn = []LField{{"first", &Lit{K: "int", I: fmt.Sprint(r.Intn(5))}}}
+		case 3:
+			s.Conn = []LField{{"first", &Lit{K: "int", I: fmt.Sprint(1 + r.Intn(3))}}, {"sortOrder", &Lit{K: "enum", S: "desc"}}}
+		default:
+			s.Conn = []LField{{"filterTextFields", &Lit{K: "list", L: []*Lit{}}}, {"last", &Lit{K: "int", I: fmt.Sprint(r.Intn(4))}}}
+		}
+	}
 }
 
 func randomPlaces(r *vh.Rng, c *Case, fragPct, inlinePct int) {
@@ -1111,6 +1158,29 @@ func genCase(r *vh.Rng) Case {
 		m := mtyOf(td.reflectType())
 		_, w := genVal(r, m, 2)
 		switch cls {
+		case "all-omitted", "bad-connection-arg":
+			// no own argument at all: required ones must be refused, the others arrive nil / zero;
+			// or: a valid value next to a connection argument of the wrong kind (paginated field only)
+			c := Case{Ty: td, Class: cls, Expect: "reject"}
+			if cls == "all-omitted" {
+				sent, anyRequired := &Val{K: "struct"}, false
+				for i, f := range m.Fields {
+					w.O[i].V = &Lit{K: "null"}
+					switch f.T.K {
+					case "ptr":
+						sent.Fs = append(sent.Fs, VField{f.Name, &Val{K: "nil"}})
+					case "opt":
+						sent.Fs = append(sent.Fs, VField{f.Name, zeroVal(f.T.Elem)})
+					default:
+						anyRequired = true
+					}
+				}
+				if !anyRequired {
+					c.Expect, c.Sent = "echo", sent
+				}
+			}
+			c.Sends = append(c.Sends, sendLiteral(w), sendVariable(r, w), sendNested(r, w), sendLiteral(w), sendVariable(r, w))
+			return c
 		case "default-on-required":
 			s := sendDefault(r, w, true)
 			has := false
@@ -1169,7 +1239,7 @@ func main() {
 	o := vh.ParseFlags()
 	log.SetOutput(ioutil.Discard) // server.go logs every refused request
 	run := vh.NewRun("C18", o)
-	run.Rule = "cases = (argument struct type, value or mutated wire form) sent through 1-6 transports (literal, variable, nested-variable, default, default-overridden, nested-default: variables with defaults at every depth of the literal, unsupplied / supplied null / supplied); 70% in-range values, 30% malformed (13 mutation classes); 12% look-alike requests (the field selected 2-3 times under aliases, in fragments too, with argument sets that print the same under fmt %v but differ in JSON kind at one position, both orders, literals and variables); 30% of the sends put the field into a named or an inline fragment; every request also goes through graphql.HTTPHandler and over a JSON socket (subscribe or mutate); distinct by JSON text of the case; non-trivial = valid case whose value differs from the zero value of its type, or malformed case (the mutation was applied)"
+	run.Rule = "cases = (argument struct type, value or mutated wire form) sent through 1-6 transports (literal, variable, nested-variable, default, default-overridden, nested-default: variables with defaults at every depth of the literal, unsupplied / supplied null / supplied); 70% in-range values, 30% malformed (15 mutation classes, among them: no own argument at all, a connection argument of the wrong kind); 25% of the sends go to a paginated twin of the field (schemabuilder.Paginated, same argument struct) with or without connection arguments; 12% look-alike requests (the field selected 2-3 times under aliases, in fragments too, with argument sets that print the same under fmt %v but differ in JSON kind at one position, both orders, literals and variables); 30% of the sends put the field into a named or an inline fragment; every request also goes through graphql.HTTPHandler and over a JSON socket (subscribe or mutate); distinct by JSON text of the case; non-trivial = valid case whose value differs from the zero value of its type, or malformed case (the mutation was applied)"
 	r := vh.NewRng(o.Seed)
 
 	var cases []Case
@@ -1189,7 +1259,10 @@ func main() {
 			}
 		}
 		for i := 0; i < o.N; i++ {
-			cases = append(cases, searchVariant(r.Fork(), seeds))
+			cr := r.Fork()
+			c := searchVariant(cr, seeds)
+			randomPaginated(cr, &c, 35)
+			cases = append(cases, c)
 		}
 	} else if o.Replay != "" {
 		var c Case
@@ -1209,6 +1282,7 @@ func main() {
 			cr := r.Fork()
 			c := genCase(cr)
 			randomPlaces(cr, &c, 20, 10)
+			randomPaginated(cr, &c, 25)
 			cases = append(cases, c)
 		}
 	}
@@ -1423,7 +1497,11 @@ func main() {
 				ot = "OErrArgs"
 			}
 			place := map[string]string{"": "InBody", "fragment": "InFragment", "inline": "InInline"}[s.Place]
-			sendTerms = append(sendTerms, fmt.Sprintf("(mk_send %s %s %s %s %s %s)", vh.CoqList(defs), coqVars(vars), coqFields(s.Args), place, ot, vh.CoqZ(int64(ob.CallsF))))
+			conn := "None"
+			if s.Paginated {
+				conn = "(Some " + coqFields(s.Conn) + ")"
+			}
+			sendTerms = append(sendTerms, fmt.Sprintf("(mk_send %s %s %s %s %s %s %s)", vh.CoqList(defs), coqVars(vars), coqFields(s.Args), place, conn, ot, vh.CoqZ(int64(ob.CallsF))))
 		}
 		// transports agree
 		if !c.NoEquiv && c.Class != "look-alike" {
